@@ -380,7 +380,15 @@ class DictDecoder:
             return self.bind_best_dataclass(data, var.element_types)
         if var.any_type or var.is_wildcard:
             # xs:anyType element, check all meta classes
-            return self.bind_best_dataclass(data, meta.element_types)
+            try:
+                return self.bind_best_dataclass(data, meta.element_types)
+            except ParserError:
+                # Any imported model fits in a wildcard, like in the xml parser
+                clazz = self.context.find_type_by_fields(set(data.keys()))
+                if clazz is None:
+                    raise
+
+                return self.bind_dataclass(data, clazz)
 
         if var.clazz is None:
             raise ParserError(
